@@ -43,7 +43,7 @@ fn lca_of_range(n: &MNode, side: Side, a: usize, b: usize) -> (String, bool) {
     best
 }
 
-fn renders_nothing(k: &MNode) -> bool {
+pub fn renders_nothing(k: &MNode) -> bool {
     if k.tag == "none" || k.tag == "mprescripts" || k.tag == "#text" {
         return false;
     }
